@@ -78,6 +78,10 @@ add("C18", "exhaustive enumeration of type pairs / clause-goal pairs through cou
     "could_match = false must imply REF-non-unifiability (unknowns of the two sides kept apart) for every ordered pair of a set of types of depth <= 2 (3 thorough) over all constructor kinds and for clause/goal pairs of trait references; every impl whose header unifies with an atomic goal must be returned by impls_for_trait; and for every (program, goal, solver) of the reduced corpus the answer must be identical when a database wrapper returns all impls of the trait instead of the filtered list.",
     "Trusted: Robinson unification over the harness term language.",
     "DESIGN.md §4 C18")
+add("C25", "exhaustive enumeration of bounded terms (types, goals, clauses, substitutions) x substitutions; every real shift/substitute/fold result compared with textbook de Bruijn operations on the harness AST, plus the laws checked on the real values",
+    "All terms up to rank 2 fully and rank 3 along a spine (thorough: rank 3 fully, rank 4 spine) with bound variables of all three kinds at depths 0..b+2 and indices 0..1 under fn-pointer, dyn, quantified-goal and clause binders, and all well-kinded parameter lists of length <= 2: shifted_in(_from), shifted_out(_to) incl. the escape error, Subst::apply, Binders::substitute, Substitution::apply must equal the reference; shift-in-then-out, identity substitution, cancellation and the substitution/shift commutation law must hold; folding with folders that override nothing must return an equal term.",
+    "Trusted: the reference de Bruijn operations in harness/src/props/c25.rs. Written by a helper agent; six mutants of shift.rs / subst.rs / binder_impls.rs / fold.rs were all detected.",
+    "DESIGN.md §4 C25")
 add("C26", "exhaustive enumeration of all types up to depth 2 (3 thorough) over every TyKind variant with lifetimes/consts of every kind in every position; interned flags compared with an independent bottom-up occurrence model",
     "About 5*10^7 (quick) / 5*10^8 (thorough) distinct types are built with the real interner (which runs compute_flags) and the stored flags, masked to the occurrence flags, are compared with a reference computed on the harness's own AST from the flag doc comments; STILL_FURTHER_SPECIALIZABLE is masked out; four (flag, construct) pairs whose doc comment is ambiguous are don't-care.",
     "Trusted: the occurrence model in harness/src/props/c26.rs. Written by a helper agent; mutants of compute_flags (dropped const type, dyn bound, ref lifetime, fn-pointer substitution flags) were all detected.",
